@@ -32,6 +32,19 @@ pub const TEXTS: &[&str] = &[
     "some_longer",
 ];
 
+/// Texts a `Node<str>` can hold: every name text plus strings that are not names (the empty
+/// string — descriptions may be empty — and one with a line break and a multi-byte character)
+pub const STR_EXTRA: &[&str] = &["", "d\u{e9}j\u{e0}\nvu"];
+
+pub fn str_text(t: u8) -> &'static str {
+    let t = t as usize % (TEXTS.len() + STR_EXTRA.len());
+    if t < TEXTS.len() {
+        TEXTS[t]
+    } else {
+        STR_EXTRA[t - TEXTS.len()]
+    }
+}
+
 /// The `&'static str` used for static names: prefixes of the long text are slices of it
 pub fn static_text(t: u8) -> &'static str {
     let text = TEXTS[t as usize];
@@ -140,6 +153,10 @@ pub enum Op {
     NodeGetMut(u8, u64),
     NodeSameLocation(u8, u8, u64),
     NodeCompare(u8, u8),
+    /// clone the name in a slot many times (10 / 300 / 5 000 / 70 000) into the bulk store
+    BulkClone(u8, u8),
+    /// drop the bulk store (0) or its older half (1)
+    BulkDrop(u8),
     StrNew(u8, u8, Option<(u8, u32)>),
     StrClone(u8, u8),
     StrDrop(u8),
@@ -179,6 +196,8 @@ impl Op {
             Op::NodeGetMut(a, v) => format!("Ng {a} {v}"),
             Op::NodeSameLocation(a, b, v) => format!("Ns {a} {b} {v}"),
             Op::NodeCompare(a, b) => format!("Ncmp {a} {b}"),
+            Op::BulkClone(a, k) => format!("bc {a} {k}"),
+            Op::BulkDrop(k) => format!("bd {k}"),
             Op::StrNew(a, t, l) => format!("Sn {a} {t} {}", loc(l)),
             Op::StrClone(a, b) => format!("Sc {a} {b}"),
             Op::StrDrop(a) => format!("Sd {a}"),
@@ -224,6 +243,8 @@ impl Op {
             "Ng" => Op::NodeGetMut(u8_(1)?, u64_(2)?),
             "Ns" => Op::NodeSameLocation(u8_(1)?, u8_(2)?, u64_(3)?),
             "Ncmp" => Op::NodeCompare(u8_(1)?, u8_(2)?),
+            "bc" => Op::BulkClone(u8_(1)?, u8_(2)?),
+            "bd" => Op::BulkDrop(u8_(1)?),
             "Sn" => Op::StrNew(u8_(1)?, u8_(2)?, loc(3)?),
             "Sc" => Op::StrClone(u8_(1)?, u8_(2)?),
             "Sd" => Op::StrDrop(u8_(1)?),
@@ -330,7 +351,17 @@ pub fn gen_op_cfg(rng: &mut Rng, cfg: &GenCfg) -> Op {
         18..=19 => Op::ToClonedArc(n(rng), a(rng)),
         20 => Op::DropArc(a(rng)),
         21..=22 => Op::IntoArc(n(rng), a(rng)),
-        23 => Op::CloneShared(rng.below(N_SHARED as u64) as u8, n(rng)),
+        23 => {
+            if rng.chance(1, 3) {
+                if rng.chance(2, 3) {
+                    Op::BulkClone(n(rng), rng.below(8) as u8)
+                } else {
+                    Op::BulkDrop(rng.below(2) as u8)
+                }
+            } else {
+                Op::CloneShared(rng.below(N_SHARED as u64) as u8, n(rng))
+            }
+        }
         24 => Op::SwapNames(n(rng), n(rng)),
         25..=26 => Op::Compare(n(rng), n(rng)),
         27 => Op::Serde(n(rng), n(rng)),
@@ -349,7 +380,7 @@ pub fn gen_op_cfg(rng: &mut Rng, cfg: &GenCfg) -> Op {
         37 => Op::NodeCompare(d(rng), d(rng)),
         38 => {
             if rng.chance(1, 2) {
-                Op::StrNew(s(rng), t(rng), loc(rng))
+                Op::StrNew(s(rng), rng.below((TEXTS.len() + STR_EXTRA.len()) as u64) as u8, loc(rng))
             } else {
                 Op::StrClone(s(rng), s(rng))
             }
@@ -390,6 +421,8 @@ pub struct Pool {
     shared: Arc<[Name]>,
     witness: Vec<Arc<str>>,
 
+    /// many clones of slot names, all alive at once (thresholds on the number of live handles)
+    bulk: Vec<(Name, MName)>,
     m_names: Vec<Option<MName>>,
     /// arc slot → backing group (None: an Arc that was never a name's backing, from a static name)
     m_arcs: Vec<Option<(u8, Option<u32>)>>,
@@ -480,6 +513,7 @@ impl Pool {
             strs: (0..N_STRS).map(|_| None).collect(),
             shared: shared.into(),
             witness,
+            bulk: vec![],
             m_names: vec![None; N_NAMES],
             m_arcs: vec![None; N_ARCS],
             m_nodes: vec![None; N_NODES],
@@ -948,9 +982,45 @@ impl Pool {
                     self.count("op.node_compare");
                 }
             }
+            Op::BulkClone(a, k) => {
+                let a = a as usize;
+                if let Some(m) = self.m_names[a].clone() {
+                    let n = match k {
+                        0..=2 => 10usize,
+                        3..=4 => 300,
+                        5..=6 => 5_000,
+                        _ => 70_000,
+                    };
+                    // under Miri every clone costs microseconds of interpretation
+                    let n = if cfg!(miri) { n.min(64) } else { n };
+                    // keep the store bounded: at most ~150 000 handles alive
+                    if self.bulk.len() + n <= 150_000 {
+                        for i in 0..n {
+                            let c = self.names[a].as_ref().unwrap().clone();
+                            Self::check_name(&c, &m, &format!("bulk clone #{} of slot {a}", self.bulk.len() + i))?;
+                            self.bulk.push((c, m.clone()));
+                        }
+                        self.group_add(m.group, m.text, n as i64);
+                        self.count("op.bulk_clone");
+                        if n >= 5_000 {
+                            self.count("probe.bulk_clone_5000_or_more");
+                        }
+                    }
+                }
+            }
+            Op::BulkDrop(k) => {
+                let n = if k == 0 { self.bulk.len() } else { self.bulk.len() / 2 };
+                let dropped: Vec<(Name, MName)> = self.bulk.drain(..n).collect();
+                for (name, m) in dropped {
+                    Self::check_name(&name, &m, "bulk clone at drop")?;
+                    self.group_add(m.group, m.text, -1);
+                    drop(name);
+                }
+                self.count("op.bulk_drop");
+            }
             Op::StrNew(s, t, loc) => {
                 let s = s as usize;
-                let text = TEXTS[t as usize];
+                let text = str_text(t);
                 let node = match loc {
                     Some((f, start)) => Node::new_str_parsed(text, span(file_raw(f), start, text.len() as u32)),
                     None => Node::new_str(text),
@@ -958,6 +1028,7 @@ impl Pool {
                 self.strs[s] = Some(node);
                 let alias = self.next_alias;
                 self.next_alias += 1;
+                let t = (t as usize % (TEXTS.len() + STR_EXTRA.len())) as u8;
                 self.m_strs[s] = Some((alias, t, loc.map(|(f, start)| (file_raw(f), start, start + text.len() as u32))));
                 self.count("op.str_new");
             }
@@ -988,7 +1059,7 @@ impl Pool {
                     let owned: String = String::from(na);
                     let back: Node<str> = Node::from(owned.clone());
                     let back2: Node<str> = Node::from(&owned);
-                    if owned != TEXTS[ma.1 as usize] || back != *na || back2.as_str() != owned || back.location().is_some() {
+                    if owned != str_text(ma.1) || back != *na || back2.as_str() != owned || back.location().is_some() {
                         return Err(problem("node_value", format!("Node<str> <-> String conversion of {:?}", lossy(na.as_str()))));
                     }
                 }
@@ -1081,7 +1152,7 @@ impl Pool {
         for i in 0..N_STRS {
             if let Some((_, t, loc)) = &self.m_strs[i] {
                 let n = self.strs[i].as_ref().unwrap();
-                if n.as_str() != TEXTS[*t as usize] || loc_of(n.location()) != *loc {
+                if n.as_str() != str_text(*t) || loc_of(n.location()) != *loc {
                     return Err(problem("node_value", format!("Node<str> slot {i}: {:?} @ {:?}", lossy(n.as_str()), loc_of(n.location()))));
                 }
             }
@@ -1137,6 +1208,10 @@ impl Pool {
         for i in 0..N_ARCS {
             self.forget_arc(i);
             self.arcs[i] = None;
+        }
+        for (name, m) in std::mem::take(&mut self.bulk) {
+            Self::check_name(&name, &m, "bulk clone at the end")?;
+            self.group_add(m.group, m.text, -1);
         }
         self.nodes.iter_mut().for_each(|n| *n = None);
         self.strs.iter_mut().for_each(|n| *n = None);
